@@ -1,6 +1,7 @@
-(* C11 core lemmas.  Route: every statement about all days is reduced, by linear arithmetic
-   on (era, doe), to a kernel-checked exhaustive sweep over ONE 400-year era
-   (146 097 days resp. 400 x 12 x 31 dates) of the doe-only part of the code. *)
+(* C11 core lemmas: the finite-check helper [all_from] (used by Era.v over the 366 days of a year and
+   the 12 x 31 month/day pairs only), facts about the machine-integer helpers, is_leap / last day of
+   month / ok().  Route of the range proofs: every statement about all days is reduced, by linear
+   arithmetic on (era, doe), to three facts about the doe-only part of the code (Era.v). *)
 From Tetl Require Import Lib.Base C11.Model C11.Spec.
 From Coq Require Import ZifyBool.
 Local Open Scope Z_scope.
